@@ -302,7 +302,11 @@ def gen_workchain_with_awaitables(rng):
     fut = 0
     for name, step in program['steps'].items():
         if step.get('ret') is None and rng.random() < 0.45 and fut < 3:
-            step['effects'].append({'e': 'toctx', 'key': f'f{fut}', 'ref': {'fut': fut}})
+            if rng.random() < 0.5:
+                step['effects'].append({'e': 'toctx', 'key': f'f{fut}', 'ref': {'fut': fut}})
+            else:
+                # handed over by RETURNING ToContext (which the enclosing if_/while_ steppers have to pass on)
+                step['ret'] = {'t': 'tocontext', 'items': {f'f{fut}': {'fut': fut}}}
             fut += 1
     program['n_futures'] = fut
     return program
